@@ -8,6 +8,7 @@ From Coq Require Import ZifyN ZifyBool.
    compiling and every theorem below is undischarged. *)
 Lemma gen_det_ok :
   GenC10.det_max = 4294967295 /\ GenC10.det_conv_bits = 32 /\ GenC10.det_always_le = 1 /\
+  GenC10.det_start_guarded = true /\
   GenC10.det_cmp_le = true /\ GenC10.det_hash_bytes = 4 /\
   GenC10.det_rate_from_config = true /\ GenC10.det_returns_rate = true /\
   GenC10.det_hash_of_traceid_and_salt = true.
@@ -86,10 +87,13 @@ Lemma det_start_in_range rate :
   1 <= rate < 4294967296 ->
   det_start rate = Some {| d_rate := rate; d_bound := 4294967295 / rate |}.
 Proof.
-  intros Hr. unfold det_start, gen_bound, conv_u.
+  intros Hr. unfold det_start, det_bound, gen_bound, conv_u.
   change GenC10.det_conv_bits with 32. change GenC10.det_max with 4294967295.
-  change (2 ^ 32) with 4294967296. rewrite Z.mod_small by lia.
-  destruct (rate =? 0) eqn:E; [apply Z.eqb_eq in E; lia|reflexivity].
+  change (2 ^ 32) with 4294967296. rewrite !Z.mod_small by lia.
+  destruct (4294967295 <? rate) eqn:E0; [apply Z.ltb_lt in E0; lia|].
+  destruct (1 <? rate) eqn:E1.
+  - destruct (rate =? 0) eqn:E; [apply Z.eqb_eq in E; lia|reflexivity].
+  - apply Z.ltb_ge in E1. assert (rate = 1) as -> by lia. reflexivity.
 Qed.
 
 Lemma det_sample_in_range rate h :
@@ -116,7 +120,7 @@ Lemma det_le1_keeps rate h r k :
   rate <= 1 -> det_sample rate h = Some (r, k) -> r = 1 /\ k = true.
 Proof.
   intros Hr. unfold det_sample. destruct (det_start rate) as [i|] eqn:S; [|discriminate].
-  unfold det_start in S. destruct (gen_bound _ _ rate) as [b|]; [|discriminate].
+  unfold det_start in S. destruct (det_bound _ _ rate) as [b|]; [|discriminate].
   injection S as <-. unfold det_get, gen_get. cbn [d_rate d_bound].
   change GenC10.det_always_le with 1.
   destruct (rate <=? 1) eqn:E; [|apply Z.leb_gt in E; lia].
@@ -166,12 +170,31 @@ Proof.
   specialize (H ltac:(lia) ltac:(lia)). cbv zeta in H. lia.
 Qed.
 
-(* the uint32 conversion: a rate that is a multiple of 2^32 makes Start divide by zero.
-   Such rates are outside C10's range (1..2^31); the crash itself is C28's subject. *)
-Lemma det_crash_multiple k : det_start (k * 4294967296) = None.
+(* Start never panics, for every Go int: the division only happens for 1 < rate <= 2^32-1 *)
+Lemma det_start_total rate :
+  -9223372036854775808 <= rate < 9223372036854775808 -> det_start rate <> None.
 Proof.
-  unfold det_start, gen_bound, conv_u. change GenC10.det_conv_bits with 32.
-  change (2 ^ 32) with 4294967296. rewrite Z.mod_mul by lia. reflexivity.
+  intros Hr. unfold det_start, det_bound, gen_bound, conv_u.
+  change GenC10.det_conv_bits with 32. change GenC10.det_max with 4294967295.
+  change (2 ^ 32) with 4294967296.
+  destruct (4294967295 <? rate mod 18446744073709551616) eqn:E0; [discriminate|].
+  destruct (1 <? rate) eqn:E1; [|discriminate].
+  apply Z.ltb_ge in E0. apply Z.ltb_lt in E1.
+  rewrite Z.mod_small in E0 by lia. rewrite Z.mod_small by lia.
+  destruct (rate =? 0) eqn:E; [apply Z.eqb_eq in E; lia|discriminate].
+Qed.
+
+(* rates that do not fit in 32 bits (outside C10's range): bound 0, only hash 0 is kept *)
+Lemma det_big_rate rate h :
+  4294967296 <= rate < 9223372036854775808 ->
+  det_sample rate h = Some (rate, h <=? 0).
+Proof.
+  intros Hr. unfold det_sample, det_start, det_bound.
+  change GenC10.det_max with 4294967295. rewrite Z.mod_small by lia.
+  destruct (4294967295 <? rate) eqn:E0; [|apply Z.ltb_ge in E0; lia].
+  unfold det_get, gen_get, thr_cmp. cbn [d_rate d_bound].
+  change GenC10.det_always_le with 1. change GenC10.det_cmp_le with true.
+  destruct (rate <=? 1) eqn:E; [apply Z.leb_le in E; lia|reflexivity].
 Qed.
 
 (* ---------- stress relief ---------- *)
